@@ -1,5 +1,5 @@
 (* C19TreeModel.v — the box tree of the init segment held by a C19 state, expressed with the box model of C01
-   (coq/c01/C01Model.v, imported read-only): what CreateEmptyInit / CreateEmptyTrak / CreateTrex / the sample entry
+   (coq/c19/C19BoxModel.v: a frozen copy of coq/c01/C01Model.v, see its banner): what CreateEmptyInit / CreateEmptyTrak / CreateTrex / the sample entry
    constructors build, with every constant they write (mp4/initsegment.go, ftyp.go CreateFtyp, mvhd.go CreateMvhd,
    tkhd.go CreateTkhd, trex.go CreateTrex, vmhd.go, smhd.go, dref.go CreateDref, url.go CreateURLBox,
    visualsampleentry.go CreateVisualSampleEntryBox, audiosamplentry.go, wvtt.go, stpp.go, dac3.go, dec3.go).
@@ -14,7 +14,7 @@
 From Coq Require Import String Ascii.
 From V.lib Require Import Base.
 From V.c13 Require Import C13Model.
-From V.c01 Require Import C01Codec C01Model.
+From V.c19 Require Import C19BoxCodec C19BoxModel.
 From V.c19 Require Import C19Model C19RecModel.
 
 (* ------------------------------------------------------------------ constructors that fill in the header *)
